@@ -72,8 +72,8 @@ func (s Scenario) Build() *Built {
 		t.AddChild(r, 0)
 		fork := t.AddChild(r, 1).ID
 		slow, fast := t.Opts, t.Opts
-		slow.MinOffset, slow.MaxOffset = 300, 400
-		fast.MinOffset, fast.MaxOffset = -9, -5
+		slow.MinOffset, slow.MaxOffset = 2500, 3000
+		fast.MinOffset, fast.MaxOffset = -232, -228
 		t.Opts = slow
 		tip := fork
 		for i := 0; i < s.OldLen; i++ {
